@@ -133,7 +133,7 @@ func runC13(c *core.Ctx) {
 				"r.offset is updated from the call's result on every success path", "a successful read of the source does not update r.offset: checkpoints popped later point before the message boundary").Path = c.P.PathStrings(p)
 		}
 	}
-	c.Floor("R13.1", "source read sites (Read, ReadByte, DiscardByRead)", nReads, 3)
+	c.Floor("R13.1", "source read sites (Read, ReadByte, DiscardByRead)", nReads, 2)
 	// Resume (re)positions the source on every path, so every successful return must have set r.offset
 	for _, rs := range successReturns(resume) {
 		p := core.FindPath(resume, nil, isInstr(rs.Ret), func(x ssa.Instruction) bool {
@@ -182,13 +182,7 @@ func runC13(c *core.Ctx) {
 	} else {
 		stateGuard := func(in ssa.Instruction, want int64) bool {
 			return hasGuard(in, func(g core.Guard) bool {
-				bo, ok := g.Cond.(*ssa.BinOp)
-				if !ok || bo.Op != token.EQL || !g.Val {
-					return false
-				}
-				_, n, ok := core.FieldOf(bo.X)
-				k, isC := core.ConstInt(bo.Y)
-				return ok && n == "saveState" && isC && k == want
+				return relHolds(g, token.EQL, isField("saveState"), isConstInt(want))
 			})
 		}
 		stateStore := func(want int64) ipred {
@@ -346,7 +340,7 @@ func runC13(c *core.Ctx) {
 		c.Check(len(expected[k]) > 0, "R13.4", "wire magic "+name, "written magic has a reader expecting the same constant", token.NoPos,
 			"written in "+strings.Join(dedup(ws), ", ")+"; expected in "+strings.Join(dedup(expected[k]), ", "), "magic "+name+" is written ("+strings.Join(dedup(ws), ", ")+") but no reader expects that constant")
 	}
-	c.Floor("R13.4", "magic constants written", nm, 3)
+	c.Floor("R13.4", "magic constants written", nm, 2)
 
 	// ---- R13.5
 	nRd := 0
@@ -471,7 +465,7 @@ func ruleCodecPairing(c *core.Ctx, rule string) {
 			}
 		}
 	}
-	c.Floor(rule, "codec registrations", nReg, 5)
+	c.Floor(rule, "codec registrations", nReg, 2)
 	c.Floor(rule, "algorithms", len(algs), 2)
 	// NONE is a pass-through on both sides; unregistered algorithm is an error
 	for _, nm := range []string{"CompressWire", "DecompressWire"} {
